@@ -246,10 +246,12 @@ where
                                     return Ok(Some(right));
                                 }
                             }
-                            t => Err(format!("Association created with non-symbol type {:?} on pair left.", t))?,
+                            // a pair keyed by something else than a symbol is an ordinary item, not an association
+                            _ => {}
                         }
                     }
-                    t => Err(format!("Association created with non-pair type {:?}.", t))?,
+                    // an unkeyed item shares the placement table; it never matches a symbol
+                    _ => {}
                 },
             }
             
